@@ -548,5 +548,6 @@ pub fn parts() -> Vec<Box<dyn PartDyn>> {
         enumerate: None,
         shrink_budget: 120,
         confirm_runs: 3,
+            fuzz: None,
     })]
 }
